@@ -105,6 +105,7 @@ struct VLocal {
     long tagSet;
     long tagLevel;
     long tagCoord[Dim];
+    u64 sizeDiffersFromMultipole[3];   // multipole and local buffers of a group must not have the same size (buffer mix-ups would go unnoticed)
 };
 
 constexpr long TagMagic = 0x7a6;
